@@ -481,18 +481,19 @@ def run_prior(case, ctx: Ctx):
 # ---------------------------------------------------------------------------------------------------
 # 7. BatchDecoupledVariationalStrategy
 # ---------------------------------------------------------------------------------------------------
-def slice_last_batch(recipe, idx):
-    """the recipe restricted to entry `idx` of its *last* batch dimension (size-1 dimensions broadcast)"""
+def slice_batch(recipe, idx, pos=-1):
+    """the recipe restricted to entry `idx` of batch dimension `pos` (negative; size-1 dimensions broadcast)"""
     rec = copy.deepcopy(recipe)
 
     def visit(o):
         if isinstance(o, dict):
             b = o.get("batch")
             if b:
-                j = idx if b[-1] > 1 else 0
+                k = len(b) + pos
+                j = idx if b[k] > 1 else 0
                 for pn, pv in list(o.get("p", {}).items()):
-                    o["p"][pn] = T(pv, dtype=F64).select(len(b) - 1, j).tolist()
-                o["batch"] = b[:-1]
+                    o["p"][pn] = T(pv, dtype=F64).select(k, j).tolist()
+                o["batch"] = b[:k] + b[k + 1:]
             for v in o.values():
                 visit(v)
         elif isinstance(o, list):
@@ -511,10 +512,17 @@ def bdecoupled_case(draw):
     M = draw(st.integers(1, 4))
     n = draw(st.integers(1, 4))
     vb = draw(st.sampled_from([[], [], [2], [3], [3, 2]]))
-    mvbd = draw(st.sampled_from([None, -1]))
+    mvbd = draw(st.sampled_from([None, None, -1, -1, -2])) if vb else draw(st.sampled_from([None, -1]))
     # documented: shared hyper-parameters -> modules of batch shape vb + [1] (or none); different ones -> vb + [2]
-    mb = draw(st.sampled_from([[], vb + [1]])) if mvbd is None else draw(st.sampled_from([vb + [2], vb + [2], [2]]))
-    xb = draw(st.sampled_from([[], vb, [3] + vb, [2] + vb]))
+    # (mean_var_batch_dim = -1), or the 2 in front of the last batch dimension (mean_var_batch_dim = -2)
+    if mvbd is None:
+        mb = draw(st.sampled_from([[], vb + [1]]))
+    elif mvbd == -1:
+        mb = draw(st.sampled_from([vb + [2], vb + [2], [2]]))
+    else:
+        mb = vb[:-1] + [2] + vb[-1:]
+    # (mean_var_batch_dim = -2 is exercised with data that carry the model's batch dimensions: unbatched x raises there)
+    xb = draw(st.sampled_from(([[]] if mvbd != -2 else []) + [vb, [3] + vb, [2] + vb]))
     learn_z = draw(st.integers(0, 3)) > 0
     model = {"strategy": "BatchDecoupled", "Z": draw(VM.inducing(M, d, vb)), "learn_z": learn_z, "mvbd": mvbd,
              "jitter": draw(st.sampled_from(VM.JITTERS + [None])), "dist": dist, "vb": vb,
@@ -530,10 +538,11 @@ def bdecoupled_case(draw):
 def run_bdecoupled(case, ctx: Ctx):
     r = case["model"]
     dist, bp, mode, vb = r["dist"], case["bp"], case["mode"], case["bp"]["vb"]
-    # the strategy stacks the two inducing sets along a new batch dimension of size 2: a data batch shape equal to
-    # vb + [2] is the cell where that internal dimension and a genuine data batch dimension coincide
-    collide = bp["xb"] == vb + [2]
-    ctx.cls = f"BatchDecoupled|{dist}|{mode}|mvbd{r['mvbd']}|{'xb=vb+[2]' if collide else 'regular'}"
+    # the strategy stacks the two inducing sets along a new batch dimension of size 2: a data batch shape equal to the
+    # stacked shape is the cell where that internal dimension and a genuine data batch dimension coincide
+    pos = -2 if r["mvbd"] == -2 else -1
+    collide = bp["xb"] == (vb + [2] if pos == -1 else vb[:-1] + [2] + vb[-1:])
+    ctx.cls = f"BatchDecoupled|{dist}|{mode}|mvbd{r['mvbd']}|{'xb=stacked' if collide else 'regular'}"
     X = T(case["X"], dtype=F64)
     jit = jit_of(r["jitter"])
     if dist == "Delta":
@@ -544,8 +553,8 @@ def run_bdecoupled(case, ctx: Ctx):
     mw, Sw = VM.q_tensors(case["q"])
     Z1 = T(r["Z"], dtype=F64)
     Z2 = Z1 if case["Z2"] is None else T(case["Z2"], dtype=F64)
-    k0, k1 = slice_last_batch(r["kernel"], 0), slice_last_batch(r["kernel"], 1)
-    m0, m1 = slice_last_batch(r["mean"], 0), slice_last_batch(r["mean"], 1)
+    k0, k1 = slice_batch(r["kernel"], 0, pos), slice_batch(r["kernel"], 1, pos)
+    m0, m1 = slice_batch(r["mean"], 0, pos), slice_batch(r["mean"], 1, pos)
     b0 = VO.prior_blocks(k0, m0, Z1, X, jit, vb)
     b1 = VO.prior_blocks(k1, m1, Z2, X, jit, vb)
     if max(b0.kappa, b1.kappa) > 1e8:
@@ -557,7 +566,7 @@ def run_bdecoupled(case, ctx: Ctx):
     def strategy_with_z2(model):
         vs = VM.base_strategy(model)
         if case["Z2"] is not None:
-            vs.initialize(inducing_points=torch.stack([Z1, Z2], dim=-3))
+            vs.initialize(inducing_points=torch.stack([Z1, Z2], dim=pos - 2))
         return vs
 
     obs = build_and_call(ctx, case, r, [(strategy_with_z2, VO.encode(dist, mw, Sw))], X)
@@ -793,6 +802,13 @@ def run_multitask(case, ctx: Ctx):
         fm, fc, _ = VO.qf_whitened(blk, dist, m, Sq)
         fkl = VO.kl_delta_std(m) if dist == "Delta" else VO.kl_std(*VO.representable(dist, m, Sq))
         kb = (0, 1)
+    if ti is not None:
+        # the task_indices path forms the elementwise product latent_cov * (a a^T) through root decompositions of both
+        # factors (dependency: MulLinearOperator); a numerically singular latent covariance (duplicate inputs, point-mass
+        # q(u) at an inducing point) only has a root after the dependency's Cholesky jitter (1e-8 ... 1e-6): outside 'exact'
+        lam = torch.linalg.eigvalsh(fc)[..., 0].min()
+        if float(lam) < 1e-9 * scale_of(fc):
+            raise Discard("task_indices path: numerically singular latent covariance (root decomposition needs jitter)")
     cands = []
     if kind == "LMC":
         A = T(r["lmc"]["coef"], dtype=F64)
